@@ -109,7 +109,7 @@ func TestC05(t *testing.T) {
 		}
 		if strings.HasPrefix(rf.Key, "cell:exit:") {
 			var c cliCase
-			json.Unmarshal(rf.Case, &c)
+			json.Unmarshal(unwrapCase(rf.Case), &c)
 			rec.NonTrivial(c.Src)
 			rec.NonTrivial(c.Src, "replay")
 			if f := c05JudgeCLI(rec, dir, c); f != nil {
